@@ -599,31 +599,234 @@ fn hist(rng: &mut Rng, rep: &mut Report, maxlen: usize) {
     }
 }
 
+// ---------------------------------------------------------------------------------------------
+// the smallest admissible length: one point for the population statistics (definition as oracle)
+
+/// values a single data point is drawn from: ordinary, signed zeros, and the ends of the f64 range
+fn point(rng: &mut Rng) -> f64 {
+    match rng.usize(0, 7) {
+        0 => *rng.choose(&[0.0, -0.0, 1.0, -1.0, 0.1, -0.1, 3.0, 1e8, -1e8, 1e300, -1e300, 1e-300, -1e-300, 5e-324, f64::MIN_POSITIVE, 1e154, 1e-154]),
+        1 => rng.int(-1000, 1000) as f64,
+        2 | 3 => rng.normal() * 10f64.powf(rng.range(-3.0, 3.0)),
+        4 => rng.normal() * 1e8,
+        5 => rng.log_range(1e-300, 1e-100) * if rng.bool() { 1.0 } else { -1.0 },
+        6 => rng.log_range(1e100, 1e300) * if rng.bool() { 1.0 } else { -1.0 },
+        _ => rng.range(-1.0, 1.0),
+    }
+}
+
+/// Every population statistic of a one-point data set, through every API. The definitions give
+/// mean = min = max = x, variance = standard deviation = covariance = 0 (exactly: the only deviation
+/// from the mean is x − x), argmin = argmax = 0.
+fn single_point(rng: &mut Rng, rep: &mut Report) {
+    let (x, y) = (point(rng), point(rng));
+    let val_eq = |a: f64, b: f64| a == b; // NaN fails; either zero for ±0
+    for api in ["free", "vector", "matrix"] {
+        let regime = format!("{}:len=1", api);
+        rep.case(&regime);
+        let ctx = |stat: &str, obs: Value, exp: Value| json!({"api": api, "stat": stat, "n": 1, "data": jf(&[x]), "observed": obs, "expected": exp, "oracle": "definition"});
+        let s = match call_api_pop(api, &[x]) {
+            Err(msg) => {
+                rep.check("C08.no_panic", &regime, false, || ctx("*", json!({"panic": msg}), json!("values")));
+                continue;
+            }
+            Ok(s) => s,
+        };
+        rep.check("C08.no_panic", &regime, true, || json!(null));
+        rep.note_add("library_calls", if api == "free" { 8.0 } else { 7.0 });
+        rep.check("C08.mean", &regime, val_eq(s.mean, x), || ctx("mean", jnum(s.mean), jnum(x)));
+        if let Some(w) = s.welford_mean {
+            rep.check("C08.welford_mean", &regime, val_eq(w, x), || ctx("welford_mean", jnum(w), jnum(x)));
+        }
+        rep.check("C08.var", &regime, val_eq(s.var, 0.0), || ctx("var", jnum(s.var), json!(0.0)));
+        rep.check("C08.std", &regime, val_eq(s.std, 0.0), || ctx("std", jnum(s.std), json!(0.0)));
+        rep.check("C08.min", &regime, val_eq(s.min, x), || ctx("min", jnum(s.min), jnum(x)));
+        rep.check("C08.max", &regime, val_eq(s.max, x), || ctx("max", jnum(s.max), jnum(x)));
+        rep.check("C08.argmin", &regime, s.argmin == 0, || ctx("argmin", json!(s.argmin), json!(0)));
+        rep.check("C08.argmax", &regime, s.argmax == 0, || ctx("argmax", json!(s.argmax), json!(0)));
+    }
+    // population covariance of a single pair (the three sample algorithms are undefined here)
+    let regime = "pair:len=1";
+    rep.case(regime);
+    for (a, b) in [(x, y), (y, x), (x, x)] {
+        let got = guard(|| st::covariance(&[a], &[b]));
+        rep.note_add("library_calls", 1.0);
+        let ctx = |obs: Value| json!({"stat": "covariance", "n": 1, "x": jf(&[a]), "y": jf(&[b]), "observed": obs, "expected": 0.0, "oracle": "definition: (x - mean x)(y - mean y)/1 = 0"});
+        match got {
+            Err(msg) => {
+                rep.check("C08.cov.no_panic", regime, false, || ctx(json!({"panic": msg})));
+            }
+            Ok(v) => {
+                rep.check("C08.cov.twopass_pop", regime, val_eq(v, 0.0), || ctx(jnum(v)));
+            }
+        }
+    }
+    rep.distinct(Hasher::new().s("len1").f(x).f(y).finish(), false);
+}
+
+/// the population statistics only (the sample statistics are undefined for one point and may panic)
+fn call_api_pop(api: &str, x: &[f64]) -> Result<Stats1, String> {
+    guard(|| match api {
+        "free" => Stats1 { mean: st::mean(x), welford_mean: Some(st::welford_mean(x)), var: st::var(x), sample_var: f64::NAN, std: st::std(x), sample_std: f64::NAN, min: st::min(x), max: st::max(x), argmin: st::argmin(x), argmax: st::argmax(x) },
+        "vector" => {
+            let v = Vector::from(x.to_vec());
+            Stats1 { mean: v.mean(), welford_mean: None, var: v.var(), sample_var: f64::NAN, std: v.std(), sample_std: f64::NAN, min: v.min(), max: v.max(), argmin: v.argmin(), argmax: v.argmax() }
+        }
+        _ => {
+            let m = Matrix::new(x.to_vec(), 1, x.len() as i32);
+            let (r0, c0) = m.argmin();
+            let (r1, c1) = m.argmax();
+            let flat = |r: usize, c: usize| if r == 0 && c < x.len() { c } else { usize::MAX };
+            Stats1 { mean: m.mean(), welford_mean: None, var: m.var(), sample_var: f64::NAN, std: m.std(), sample_std: f64::NAN, min: m.min(), max: m.max(), argmin: flat(r0, c0), argmax: flat(r1, c1) }
+        }
+    })
+}
+
+// ---------------------------------------------------------------------------------------------
+// data at extreme scales: 2^k-multiples (k to ±480) of moderate data, and spreads far below 1e-8 of
+// the unit. Every statistic is homogeneous (degree 1 or 2) and a power-of-two factor commutes with
+// every rounding as long as nothing leaves the normal range, so stat(2^k x) = 2^(k or 2k) stat(x).
+// A handful of the ~n smallest products (x_i − mean)·(x_i − mean') may drop below 2^-1022 when the
+// result itself is near 2^-960; their total is < n·2^-1074, far below one ulp of the result, so the
+// relation is required to 4 ulp here (bitwise in the moderate range, see `metamorphic`).
+
+fn ulps_apart(a: f64, b: f64) -> f64 {
+    if a == b {
+        return 0.0;
+    }
+    if !(a.is_finite() && b.is_finite()) || (a < 0.0) != (b < 0.0) {
+        return f64::INFINITY;
+    }
+    (a - b).abs() / ulp(a.abs().max(b.abs()))
+}
+
+fn extreme_scale(rng: &mut Rng, rep: &mut Report, maxlen: usize, big: bool) {
+    let n = if rng.chance(0.3) { rng.usize(2, 9) } else { gen_len(rng, maxlen.min(2000), 2) };
+    // base data: |x| < 64 on the grid 2^-40·Z; kind 0/1: zero-centred with spread s, kind 2: unit offset with
+    // a spread of 2^-28..2^-38 (1e-9..1e-12 of the unit: the variance is far below f64::EPSILON)
+    let kind = rng.usize(0, 2);
+    let g = 2f64.powi(40);
+    let (x, y): (Vec<f64>, Vec<f64>) = match kind {
+        0 | 1 => {
+            let s = if kind == 0 { rng.range(0.05, 8.0) } else { 2f64.powi(-(rng.usize(20, 36) as i32)) };
+            let mk = |rng: &mut Rng| -> Vec<f64> { (0..n).map(|_| ((rng.normal() * s).clamp(-60.0, 60.0) * g).round() / g).collect() };
+            (mk(rng), mk(rng))
+        }
+        _ => {
+            let s = 2f64.powi(-(rng.usize(28, 38) as i32));
+            let (cx, cy) = (rng.int(1, 3) as f64 * if rng.bool() { 1.0 } else { -1.0 }, rng.int(1, 3) as f64);
+            let mk = |rng: &mut Rng, c: f64| -> Vec<f64> { (0..n).map(|_| c + ((rng.normal() * s).clamp(-0.5, 0.5) * g).round() / g).collect() };
+            (mk(rng, cx), mk(rng, cy))
+        }
+    };
+    let kreg = ["unit-spread", "spread=2^-20..2^-36", "offset:spread/mean=2^-28..2^-38"][kind];
+    // scales: k in ±(300..480); for the bilinear covariance |kx + ky| <= 900
+    // (towards zero the factor is limited so that the scaled variance / covariance, of order spread^2, stays
+    // above 2^-940: the true result neither overflows nor underflows)
+    let kx = if big { rng.int(300, 480) as i32 } else { -(rng.int(300, [466, 430, 430][kind]) as i32) };
+    let ky = if rng.chance(0.5) { rng.int(0, if kind == 0 { 400 } else { 300 }) as i32 * if big { 1 } else { -1 } } else { rng.int(-40, 40) as i32 };
+    let (sx, sy) = (2f64.powi(kx) * if rng.bool() { 1.0 } else { -1.0 }, 2f64.powi(ky));
+    let zx: Vec<f64> = x.iter().map(|&v| v * sx).collect();
+    let zy: Vec<f64> = y.iter().map(|&v| v * sy).collect();
+    let regime = format!("xscale:{}:{}", if big { "2^+300..480" } else { "2^-300..480" }, kreg);
+    rep.case(&regime);
+    rep.seen(if big { "xscale:huge" } else { "xscale:tiny" }, 1);
+    let ctx = |obs: Value| json!({"n": n, "x": jf(&x), "y": jf(&y), "scale_x": sx, "scale_y": sy, "observed": obs, "note": "stat(scale * data) must equal scale^(1|2) * stat(data) to 4 ulp"});
+    let r0 = guard(|| (st::mean(&x), st::welford_mean(&x), st::var(&x), st::sample_var(&x), st::std(&x), st::sample_std(&x), st::min(&x), st::max(&x), st::argmin(&x), st::argmax(&x)));
+    let r1 = guard(|| (st::mean(&zx), st::welford_mean(&zx), st::var(&zx), st::sample_var(&zx), st::std(&zx), st::sample_std(&zx), st::min(&zx), st::max(&zx), st::argmin(&zx), st::argmax(&zx)));
+    let v1 = guard(|| {
+        let v = Vector::from(zx.clone());
+        let m = Matrix::new(zx.clone(), 1, n as i32);
+        [v.var(), v.std(), v.sample_var(), v.sample_std(), m.var(), m.std(), m.sample_var(), m.sample_std()]
+    });
+    rep.note_add("library_calls", 36.0);
+    match (r0, r1, v1, cov4(&x, &y), cov4(&zx, &zy)) {
+        (Ok(p), Ok(q), Ok(w), Ok(c0), Ok(c1)) => {
+            // the moderate-scale values themselves against the double-double reference (relative bound; the
+            // generic bound's absolute floor plays no part at these magnitudes)
+            let m = moments(&x, false);
+            let b = bound(&m, &m);
+            rep.check("C08.var", &regime, (p.2 - m.m2 / n as f64).abs() <= b, || ctx(json!({"stat": "var(x)", "observed": jnum(p.2), "expected": m.m2 / n as f64, "tol": b})));
+            let vref = m.m2 / n as f64;
+            let tsd = (b / vref.sqrt()).min(b.sqrt()) + 4.0 * U * vref.sqrt() + 1e-300;
+            rep.check("C08.std", &regime, (p.4 - vref.sqrt()).abs() <= tsd, || ctx(json!({"stat": "std(x)", "observed": jnum(p.4), "expected": vref.sqrt(), "tol": tsd})));
+            let a = sx.abs();
+            let pairs = [("mean", p.0 * sx, q.0), ("welford_mean", p.1 * sx, q.1), ("var", p.2 * a * a, q.2), ("sample_var", p.3 * a * a, q.3), ("std", p.4 * a, q.4), ("sample_std", p.5 * a, q.5)];
+            for (name, want, got) in pairs {
+                let d = ulps_apart(want, got);
+                rep.note_max("worst_ulps.scaling_extreme", d);
+                rep.check("C08.scaling_pow2.extreme", name, d <= 4.0, || ctx(json!({"stat": name, "s^k * stat(x)": jnum(want), "stat(s*x)": jnum(got), "ulps": jnum(d)})));
+            }
+            // Vector / Matrix wrappers on the scaled data agree with the free functions bit for bit
+            let free = [q.2, q.4, q.3, q.5, q.2, q.4, q.3, q.5];
+            let names = ["Vector::var", "Vector::std", "Vector::sample_var", "Vector::sample_std", "Matrix::var", "Matrix::std", "Matrix::sample_var", "Matrix::sample_std"];
+            for i in 0..8 {
+                rep.check("C08.scaling_pow2.extreme", "method=free", same_bits(w[i], free[i]) || (w[i] == 0.0 && free[i] == 0.0), || ctx(json!({"stat": names[i], "method": jnum(w[i]), "free function": jnum(free[i])})));
+            }
+            // extremes: order statistics commute with a positive factor and swap under a negative one
+            let (wmin, wmax, wamin, wamax) = if sx > 0.0 { (p.6 * sx, p.7 * sx, p.8, p.9) } else { (p.7 * sx, p.6 * sx, p.9, p.8) };
+            rep.check("C08.min", &regime, q.6 == wmin, || ctx(json!({"stat": "min", "observed": jnum(q.6), "expected": jnum(wmin)})));
+            rep.check("C08.max", &regime, q.7 == wmax, || ctx(json!({"stat": "max", "observed": jnum(q.7), "expected": jnum(wmax)})));
+            rep.check("C08.argmin", &regime, q.8 == wamin, || ctx(json!({"stat": "argmin", "observed": q.8, "expected": wamin})));
+            rep.check("C08.argmax", &regime, q.9 == wamax, || ctx(json!({"stat": "argmax", "observed": q.9, "expected": wamax})));
+            for al in ALGOS {
+                let (want, got) = (c0.get(al) * sx * sy, c1.get(al));
+                let d = ulps_apart(want, got);
+                rep.note_max("worst_ulps.scaling_extreme", d);
+                rep.check("C08.scaling_pow2.extreme", &format!("cov.{}", al), d <= 4.0 || (want == 0.0 && got == 0.0), || ctx(json!({"stat": al, "s*t*cov(x,y)": jnum(want), "cov(s*x,t*y)": jnum(got), "ulps": jnum(d)})));
+            }
+        }
+        (a, b, c, d, e) => {
+            let msg = a.err().or(b.err()).or(c.err()).or(d.err()).or(e.err()).unwrap_or_default();
+            rep.check("C08.no_panic", &regime, false, || ctx(json!({"panic": msg})));
+        }
+    }
+    rep.distinct(Hasher::new().s("xscale").fs(&zx).fs(&zy).finish(), true);
+}
+
 pub fn run(cfg: &Cfg, rep: &mut Report) {
-    rep.rule = "data sets of length 1..1e4 (>= 2 for sample statistics and pairs) from 8 classes (small integers, gaussian, offset with mean/sd 1e2..1e8, constant, sorted, reversed, ties, signed zeros), each pushed through the free functions, the Vector methods and the Matrix methods (random r x c shape); pairs from 8 classes (incl. identical and constant) through the four covariance algorithms; grid data with exact shifts up to 8e9 and exact 2^k scalings for the metamorphic relations; uniform (dyadic and linspace) and non-uniform bin edges (2..501 edges). one evaluation = one data set through one API (9-24 library calls, see notes.library_calls). non-trivial = length >= 2 and not constant (hist: >= 2 bins); distinct by bits of the data".into();
+    rep.rule = "data sets of length 1..1e4 (>= 2 for sample statistics and pairs) from 8 classes (small integers, gaussian, offset with mean/sd 1e2..1e8, constant, sorted, reversed, ties, signed zeros), each pushed through the free functions, the Vector methods and the Matrix methods (random r x c shape); pairs from 8 classes (incl. identical and constant) through the four covariance algorithms; grid data with exact shifts up to 8e9 and exact 2^k scalings for the metamorphic relations; uniform (dyadic and linspace) and non-uniform bin edges (2..501 edges); one-point data sets (values 5e-324..1e300, signed zeros) through every population statistic and API with the definition as oracle, length 2 forced for the sample statistics; grid data times 2^+-(300..480) (unit spread, spreads 2^-20..2^-36, offset with spread/mean 2^-28..2^-38) for homogeneity of every statistic. one evaluation = one data set through one API (9-24 library calls, see notes.library_calls). non-trivial = length >= 2 and not constant (hist: >= 2 bins); distinct by bits of the data".into();
     rep.assume("all data finite; empty input and sample statistics of a single value are outside the quantifier");
     rep.assume("'rounding-error bound of a numerically stable algorithm' is read as B = 16[n u sx sy + n u (sx|my| + sy|mx|) + (n u)^2 |mx my|] for (co)variances (Welford's own n·u·kappa bound is the middle term; DESIGN's tighter c·n·eps·(s^2 + eps·mu^2) is recorded under info.worst_ratio_vs_DESIGN_formula.* for comparison), 8 n u max|x| for means (1 ulp for `mean` of small integers), B/sd resp. sqrt(B) for standard deviations");
     rep.assume("min/max are compared by value (either zero accepted for +-0); argmin/argmax = first index whose value equals the extreme");
     rep.assume("power-of-two scaling is required bitwise (every algorithm built from + - * / and sqrt commutes with it when nothing under/overflows; data magnitudes keep 2^±60 away from the limits)");
+    rep.assume("one data point (the smallest length of the population statistics): mean = welford_mean = min = max = x by value, var = std = covariance = 0 exactly (the only deviation from the mean is x - x), argmin = argmax = 0; values from signed zeros and subnormals to 1e300; sample statistics start at length 2 (forced in 1/16 of the single-vector and 1/8 of the pair cases)");
+    rep.assume("extreme scales: grid data (|x| < 64, grid 2^-40; unit spread, spreads 2^-20..2^-36, or offset 1..3 with spread 2^-28..2^-38) multiplied by 2^±(300..480); the homogeneity relation is required to 4 ulp (not bitwise: up to n of the smallest squared deviations may fall below 2^-1022 while the result itself stays above 2^-940); factors are limited so that no true result over- or underflows");
     rep.assume("hist_bin_centers: 2 ulp of the larger edge magnitude; on inexactly uniform (linspace) edges an extra i·u·max|e| is allowed for bin i (accumulated rounding of a cumulative construction)");
     let maxlen = if cfg.miri() { 24 } else { 10_000 };
     let n_single = cfg.pick(1600, 32000, 8);
     let n_pair = cfg.pick(1000, 20000, 8);
     let n_meta = cfg.pick(400, 8000, 3);
     let n_hist = cfg.pick(600, 6000, 6);
+    let n_len1 = cfg.pick(300, 4000, 4);
+    let n_xscale = cfg.pick(400, 8000, 3);
     par_cases(cfg, rep, 1, n_single, |i, rng, rep| {
         let class = CLASSES[i % CLASSES.len()];
-        let n = gen_len(rng, maxlen, 1);
+        // one case in 16 of every class at the smallest length of the population statistics, one at the smallest of
+        // the sample statistics
+        let n = match (i / CLASSES.len()) % 16 {
+            3 => 1,
+            11 => 2.min(maxlen),
+            _ => gen_len(rng, maxlen, 1),
+        };
         let x = gen_data(rng, class, n);
         check_single(rep, class, &x, rng);
         rep.seen(if n == 1 { "len=1" } else if n <= 9 { "len=2..9" } else if n <= 300 { "len=10..300" } else { "len>300" }, 1);
+        if n == 2 {
+            rep.seen("len=2", 1);
+        }
     });
     par_cases(cfg, rep, 2, n_pair, |i, rng, rep| {
         let class = PAIR_CLASSES[i % PAIR_CLASSES.len()];
-        let n = gen_len(rng, maxlen, 2);
+        let n = if (i / PAIR_CLASSES.len()) % 8 == 5 { 2 } else { gen_len(rng, maxlen, 2) };
         let (x, y) = gen_pair(rng, class, n);
         check_pair(rep, class, &x, &y);
+        if n == 2 {
+            rep.seen("pair:len=2", 1);
+        }
     });
+    par_cases(cfg, rep, 6, n_len1, |_i, rng, rep| single_point(rng, rep));
+    par_cases(cfg, rep, 7, n_xscale, |i, rng, rep| extreme_scale(rng, rep, maxlen, i % 2 == 0));
     par_cases(cfg, rep, 3, n_meta, |_i, rng, rep| metamorphic(rng, rep, maxlen));
     par_cases(cfg, rep, 4, n_hist, |_i, rng, rep| hist(rng, rep, maxlen));
     // the DESIGN probes, literally
@@ -649,6 +852,9 @@ pub fn run(cfg: &Cfg, rep: &mut Report) {
         rep.require(&format!("pair:{}", c), 1);
     }
     rep.require("meta:scale-2^k", 1);
+    for r in ["free:len=1", "vector:len=1", "matrix:len=1", "pair:len=1", "xscale:huge", "xscale:tiny"] {
+        rep.require(r, 1);
+    }
     rep.require("hist:non-uniform", 1);
     if !cfg.miri() {
         for r in ["pair-oracle:exact-rational", "pair-oracle:double-double", "hist:uniform:dyadic", "hist:uniform:linspace"] {
@@ -656,7 +862,7 @@ pub fn run(cfg: &Cfg, rep: &mut Report) {
         }
     }
     if !cfg.lite {
-        for r in ["meta:shift>=1e6", "meta:shift<1e6", "hist:single-bin", "len=1", "len=2..9", "len=10..300", "len>300", "extreme:tied-min-not-at-0", "extreme:tied-max-not-at-0"] {
+        for r in ["meta:shift>=1e6", "meta:shift<1e6", "hist:single-bin", "len=1", "len=2", "pair:len=2", "len=2..9", "len=10..300", "len>300", "extreme:tied-min-not-at-0", "extreme:tied-max-not-at-0"] {
             rep.require(r, 1);
         }
     }
